@@ -187,6 +187,13 @@ def check_text(text, fn, part, label):
     if has_type_params(tree):
         part.count('skipped_pep695')
         return out
+    comp_targets = {}      # position of a comprehension variable -> the comprehension node
+    for c in ast.walk(tree):
+        if isinstance(c, (ast.ListComp, ast.SetComp, ast.DictComp, ast.GeneratorExp)):
+            for g in c.generators:
+                for t in ast.walk(g.target):
+                    if isinstance(t, ast.Name):
+                        comp_targets[(t.lineno, t.col_offset)] = c
     nonlocals = set()
     implicit = set()      # names some scope owns only through `x += 1` or `x: int` (no value): locals without a binding statement
     for n in ast.walk(tree):
@@ -269,6 +276,10 @@ def check_text(text, fn, part, label):
             if not ok:
                 if n.id in nonlocals:
                     sig = 'wrong-scope:name-declared-nonlocal'
+                elif tuple(getattr(a, 'declared_at', ())) in comp_targets and not inside(comp_targets[tuple(a.declared_at)], n):
+                    # a read OUTSIDE a comprehension resolved to that comprehension's variable (supp lets the variables of a
+                    # comprehension flow on behind it; tests/test_scope.py::test_lambda_in_gen_expression pins that)
+                    sig = 'wrong-scope:comprehension-variable-visible-outside'
                 elif n.id in implicit and kind in ('local', 'free') and not owner_binds(tree, chain[idx] if idx is not None else None, n.id):
                     sig = 'wrong-scope:local-only-through-augassign-or-annotation'
                 else:
@@ -278,6 +289,12 @@ def check_text(text, fn, part, label):
                     out.append((sig, '%s: `%s` at %s: compiler resolves it as %s in %s, supp offers the binding %r owned by %s %s' % (
                         label, n.id, np(n), kind, want, a, sk, sname or '')))
     return out
+
+
+def inside(comp, node):
+    """is the read textually inside the comprehension?"""
+    return ((comp.lineno, comp.col_offset) <= (node.lineno, node.col_offset)
+            and (node.end_lineno, node.end_col_offset) <= (comp.end_lineno, comp.end_col_offset))
 
 
 def owner_binds(tree, blk, name):
@@ -310,9 +327,20 @@ for _how in ('x += 1', 'x: int'):
                     IMPLICIT_LOCALS.append(_outer + 'def f1():\n' + _body + 'f1()\n')
 
 
+# comprehension / lambda shapes the nesting generator does not produce (siblings inside one element expression)
+HAND_SCOPES = [
+    'c = 0\ndef f(x):\n    return [([1 for b in c], (lambda: c)()) for c in x]\nf([[1]])\n',
+    'c = 0\ndef f(x):\n    return [((lambda: c)(), [1 for b in c]) for c in x]\nf([[1]])\n',
+    'c = 0\nclass K:\n    v = [([1 for b in c], (lambda: c)()) for c in [[1]]]\n',
+    'c = 0\ndef f(x):\n    return [[(lambda: (c, d))() for d in c] for c in x]\nf([[1]])\n',
+    'c = 0\ndef f(x):\n    return {(lambda: c)(): [c for q in c] for c in x}\n',
+    'c = 0\ndef f(x):\n    g = (lambda: c)\n    return [g() for c in x]\nf([1])\n',
+]
+
+
 def unit_implicit(_):
     part = Part()
-    for text in IMPLICIT_LOCALS:
+    for text in IMPLICIT_LOCALS + HAND_SCOPES:
         try:
             symtable.symtable(text, '<gen>', 'exec')
         except SyntaxError:
